@@ -29,6 +29,26 @@ def rust_field_shape(adt, layout=None):
     return out
 
 
+def macro_repr_flag_rule(ck, rule, facts):
+    """by-value structs get #[repr(C)] unless they carry a `repr` of their own: AttributeInfo::extract sets the flag for the `repr` attribute only (whatever its argument:
+    adding repr(C) next to repr(transparent) / repr(u8) does not compile, leaving a repr-less struct out loses the layout).  Shared with C09."""
+    mac = facts.macro
+    # by-value structs get #[repr(C)] unless they carry a `repr` of their own: the flag is set for the `repr` attribute only
+    exf = mac.fn("AttributeInfo::extract")
+    repr_conds = []
+    for n, st in C.with_conditions(C.fn_body(exf)):
+        if n.get("k") == "assign" and C.strip(n["l"]).get("n") == "repr" and str(C.strip(n["r"]).get("v")).lower() == "true":
+            lits = set()
+            for kind, a, b in st:
+                if kind == "if" and b == "t":
+                    lits |= {y["v"] for y in C.walk(a) if y.get("k") == "lit" and y.get("t") == "str"}
+                elif kind == "arm":
+                    lits |= set(C.pattern_str_lits({"k": "match", "arms": [b], "s": {}}))
+            repr_conds.append(sorted(lits))
+    ck.expect(repr_conds == [["repr"]], rule, "macro::extract/repr-flag-only-for-repr", str(repr_conds),
+              "AttributeInfo::extract sets `repr` under %s (expected only for the `repr` attribute): a by-value struct carrying that attribute no longer gets #[repr(C)], rustc may reorder its fields while the C header keeps declaration order" % repr_conds, C.loc(exf))
+
+
 def run(ck, facts):
     tool, rt, mac = facts.tool, facts.runtime, facts.macro
     adts = facts.all_adts()
@@ -327,20 +347,7 @@ def run(ck, facts):
               "discriminant while every backend declares it `int`-sized", C.loc(gb))
     ck.expect(n_repr >= 2, "R5", "macro::gen_bridge/forces-repr(C)", "%d repr(C) templates" % n_repr, "gen_bridge no longer adds #[repr(C)] to structs and enums (found %d templates)" % n_repr, C.loc(gb))
 
-    # by-value structs get #[repr(C)] unless they carry a `repr` of their own: the flag is set for the `repr` attribute only
-    exf = mac.fn("AttributeInfo::extract")
-    repr_conds = []
-    for n, st in C.with_conditions(C.fn_body(exf)):
-        if n.get("k") == "assign" and C.strip(n["l"]).get("n") == "repr" and str(C.strip(n["r"]).get("v")).lower() == "true":
-            lits = set()
-            for kind, a, b in st:
-                if kind == "if" and b == "t":
-                    lits |= {y["v"] for y in C.walk(a) if y.get("k") == "lit" and y.get("t") == "str"}
-                elif kind == "arm":
-                    lits |= set(C.pattern_str_lits({"k": "match", "arms": [b], "s": {}}))
-            repr_conds.append(sorted(lits))
-    ck.expect(repr_conds == [["repr"]], "R5", "macro::extract/repr-flag-only-for-repr", str(repr_conds),
-              "AttributeInfo::extract sets `repr` under %s (expected only for the `repr` attribute): a by-value struct carrying that attribute no longer gets #[repr(C)], rustc may reorder its fields while the C header keeps declaration order" % repr_conds, C.loc(exf))
+    macro_repr_flag_rule(ck, "R5", facts)
 
     # ---------------- R6 passing mode (gate vs macro vs C backend)
     core = facts.core
